@@ -1,7 +1,7 @@
 """C03 - optimal-fit returns a minimum-cost arrangement under the documented penalties."""
 from ..sym import sym_of, subterms
 from ..engine import AnchorMissing, loop_models
-from ..poly import poly, fact_nf, negate_cmp, Poly
+from ..poly import poly, fact_nf, negate_cmp, Poly, GT0, GE0, EQ0, NE0
 from ..paths import loop_system, entry_value, loop_state_vars
 from ..describe import describe
 from .. import lemmas
@@ -142,11 +142,11 @@ def _cost(prog, rep):
     base = poly(("field", ("index", MIN, I), "1")) + poly(pen("nline_penalty"))
     n = ("call", "[]::len", (cap["F"],))
     TF = ("bin", "Div", T, pen("short_last_line_fraction"))
-    A = ("gt0", pLW - pT)
-    B = ("gt0", poly(n) - poly(J))
-    C = ("eq0", fact_nf((("cmp", "Eq", ("bin", "Add", I, ("int", 1)), J), True))[1])
-    Dd = ("gt0", poly(TF) - pLW)
-    H = ("gt0", poly(P))
+    A = GT0(pLW - pT)
+    B = GT0(poly(n) - poly(J))
+    C = EQ0(fact_nf((("cmp", "Eq", ("bin", "Add", I, ("int", 1)), J), True))[1])
+    Dd = GT0(poly(TF) - pLW)
+    H = GT0(poly(P))
     N = negate_cmp
     regions = [
         ("overflow", [A], base + (pLW - pT) * poly(pen("overflow_penalty"))),
